@@ -306,8 +306,18 @@ def mutate(rng, data):
     if r < 0.90 and strs:
         i = rng.choice(strs)
         n = rng.choice([8189, 8190, 8191, 8192, 8193, 8200, 20000, 300, 257, 256])
-        fill = rng.choice([b"a", b"a", b"x\\n", b"\\101", b"[", b"\xc3\xa9"])
-        body = (fill * (n // len(fill) + 1))
+        fill = rng.choice([b"a", b"a", b"x\\n", b"\\101", b"[", b"\xc3\xa9", None, None])
+        if fill is None:
+            # several long runs of ordinary characters separated by escapes, n decoded bytes in all: the run that crosses the end of
+            # string_buf is longer than one character (a bulk copy that only looks at the run's own length would overflow)
+            body, left = b"", n
+            while left > 0:
+                k = min(left, rng.choice([1, 2, 7, 100, 1000, 3000, 5000, 8000]))
+                body += rng.choice([b"a", b"b", b"["]) * k; left -= k
+                if left > 0:
+                    body += rng.choice([b"\\t", b"\\n", b"\\101", b"\\q"]); left -= 1
+        else:
+            body = (fill * (n // len(fill) + 1))
         if fill in (b"a", b"["):
             body = body[:n]
         toks[i] = b'"' + body + b'"'
@@ -484,6 +494,8 @@ def directed_cases():
     # strings
     for n in (8189, 8190, 8191, 8192, 8193, 8200, 20000):
         add("listen-string-%d" % n, b'listen "' + b"a" * n + b'"\n' + ok)                                      # F15
+    for pre, n in ((5000, 3190), (5000, 3191), (5000, 3192), (5000, 3200), (5000, 5000), (8000, 400), (8190, 2), (8190, 1), (100, 8091), (100, 8092)):
+        add("string-runs-%d+1+%d" % (pre, n), b'listen "' + b"a" * pre + b"\\t" + b"b" * n + b'"\n' + ok)    # two runs around an escape
     add("string-8191-escapes", b'listen "' + b"\\t" * 8191 + b'"\n' + ok)
     add("string-8192-escapes", b'listen "' + b"\\101" * 8192 + b'"\n' + ok)
     add("string-8192-then-nul", b'listen "' + b"\x00" + b"a" * 9000 + b'"\n' + ok)
